@@ -242,3 +242,33 @@ package funnel
 //verif:func (*ProcessorTask).isSameType(t, a, b) (r)
 //verif:ensures[same] r ==> sameKind(a, b)
 //verif:pure
+
+// ---- graceful stop (C06) and ack guards (C01) in the worker -----------------------
+
+// A source batch is processed only while holding the processing lock, and only if
+// the stop flag, read AFTER the lock was acquired, is not set; a clean batch is
+// acked by this task only at the end of the chain or when nothing active is left.
+//verif:def firstTaskGuards() = result_of("(*TaskNode).IsFirst", 0) ==> succeeded("(*Worker).acquireProcessingLock") && called("(*Bool).Load@stop") && !result_of("(*Bool).Load@stop", 0) && since("(*Worker).acquireProcessingLock", "(*Bool).Load@stop") == 0 && count("$result.funnel.(*Worker).acquireProcessingLock.0") == 0
+//verif:func (*Worker).doTaskAttempt(w, ctx, taskNode, b, acker, retry) (err)
+//verif:call[ack-only-at-chain-end-or-all-filtered] ackNacker.Ack requires firstTaskGuards() && succeeded("Task.Do") && called("(*TaskNode).HasNext") && (!result_of("(*TaskNode).HasNext", 0) || !result_of("(*Batch).HasActiveRecords", 0))
+//verif:call[next-task-under-guards] (*Worker).doNextTask requires firstTaskGuards() && succeeded("Task.Do")
+//verif:call[nack-under-guards] ackNacker.Nack requires firstTaskGuards() && succeeded("Task.Do")
+
+// Stop: lock, then flag, then source teardown; the lock is released on return.
+//verif:func (*Worker).Stop(w, ctx) (err)
+//verif:call[flag-under-lock] (*Bool).Store@stop requires succeeded("(*Worker).acquireProcessingLock") && count("$result.funnel.(*Worker).acquireProcessingLock.0") == 0 && arg1
+//verif:call[teardown-after-flag] (*Worker).tearDownSource requires called("(*Bool).Store@stop") && succeeded("(*Worker).acquireProcessingLock") && count("$result.funnel.(*Worker).acquireProcessingLock.0") == 0
+//verif:ensures[released] succeeded("(*Worker).acquireProcessingLock") ==> count("$result.funnel.(*Worker).acquireProcessingLock.0") == 1
+
+// The source is torn down at most once successfully; the marker is set only after
+// a successful teardown.
+//verif:func (*Worker).tearDownSource(w, ctx) (err)
+//verif:monitor teardownMu guards sourceTornDown
+//verif:call[not-again-after-success] Source.Teardown requires !w.sourceTornDown
+//verif:store[mark-only-after-success] sourceTornDown requires newval && succeeded("Source.Teardown")
+//verif:ensures[success-means-torn-down] err == nil ==> w.sourceTornDown
+
+// Close tears the source down, closes every task and the DLQ, and reports all errors.
+//verif:func (*Worker).Close(w, ctx) (err)
+//verif:call[dlq-closed-after-source-teardown] (*DLQ).Close requires called("(*Worker).tearDownSource")
+//verif:ensures[everything-attempted] called("(*Worker).tearDownSource") && called("(*DLQ).Close")
